@@ -23,7 +23,17 @@ for t in tests:
     p = subprocess.run([os.path.join(VERIF, "check"), "C13", "--tier", "quick", "--engine", "stream"], env=env, stdout=subprocess.PIPE, stderr=subprocess.STDOUT, text=True, cwd=VERIF)
     got = {0: "clean", 1: "violation"}.get(p.returncode, "broken(%d)" % p.returncode)
     first = next((l for l in p.stdout.splitlines() if l.startswith("  ")), "")
-    res.append(dict(name=t["name"], expect=t["expect"], got=got, ok=got == t["expect"], secs=round(time.time() - t0), first=first.strip()[:260]))
+    oracles = {}
+    try:
+        import collections
+        known = json.load(open(os.path.join(HERE, "proposed_findings.json")))
+        sys.path.insert(0, os.path.join(VERIF, "tools"))
+        import vlib
+        last = json.load(open(os.path.join(VERIF, "_out", "last_C13.json")))
+        oracles = dict(collections.Counter(v["event"] for v in last["violations"] if not vlib.known_match(v, known)))
+    except Exception as ex:
+        oracles = {"?": str(ex)}
+    res.append(dict(name=t["name"], expect=t["expect"], got=got, ok=got == t["expect"], secs=round(time.time() - t0), oracles=oracles, first=first.strip()[:260]))
     print(json.dumps(res[-1]), flush=True)
     subprocess.run(["git", "-C", TREE, "checkout", "-q", "--", "."], check=True)
 json.dump(res, open(os.environ.get("VERIF_SELFTEST_OUT", os.path.join(HERE, "selftest_result.json")), "w"), indent=1)
